@@ -19,7 +19,9 @@ def plan(tier, focus, label):
         n = len(seeds)
         stride = 1
         if tier == 'quick':
-            stride = 6 if ch in ('U1', 'Z3', 'U1xZ2') else 12
+            stride = 9 if ch in ('U1', 'Z3', 'U1xZ2') else 18
+        if tier == 'quick' and (label not in ('CY',) or focus == 'C03'):
+            stride *= 2  # secondary configurations (pure Python, other optimization levels) and the snapshot-heavy C03
         offset = (ci + {'C01': 0, 'C02': 1, 'C03': 2}[focus]) % stride
         chunk = 300 if tier == 'quick' else 100
         for a in range(0, n, chunk):
@@ -32,7 +34,7 @@ def plan(tier, focus, label):
             idx = [i for i, (_s, f) in enumerate(seeds) if f == fam]
             # prefer seeds with >= 2 stored blocks
             idx = [i for i in idx if len(seeds[i][0][0]['present']) >= 2] or idx
-            if tier == 'quick' and (fi + ci) % 2 == 1:
+            if tier == 'quick' and ((fi + ci) % 2 == 1 or (label != 'CY' and fi >= 2)):
                 continue
             step = max(1, len(idx) // per_fam)
             for k in range(per_fam):
